@@ -292,7 +292,71 @@ fn quiet_gap(ctx: &Ctx, gap: Duration, burst: usize, close_order: usize, tag: &s
     ctx.violation("c13:idle-connections-block-another-after-quiet-period", json!({"engine": "c13-quiet-gap", "gap_ms": gap.as_millis() as u64, "burst": burst, "close_order": close_order, "message": fails}));
 }
 
+/// A peer that sends requests nested far beyond anything a parser should recurse into, while
+/// well-behaved clients pipeline token-tagged requests on the same server.  The server runs in a
+/// child process: the failure looked for is the whole service going down, which an in-process
+/// server would turn into the death of this monitor.
+fn hostile_depth(ctx: &Ctx) {
+    let mut server = match crate::c06::ChildServer::start() {
+        Ok(s) => s,
+        Err(e) => return ctx.inconclusive(json!({ "child_server": e })),
+    };
+    for (di, depth) in [200usize, 5_000, 200_000, 2_000_000].iter().enumerate() {
+        let address = server.address.clone();
+        let results: Vec<Result<usize, String>> = std::thread::scope(|sc| {
+            let hs: Vec<_> = (0..4)
+                .map(|c| {
+                    let address = address.clone();
+                    sc.spawn(move || -> Result<usize, String> {
+                        let mut conn = RawConn::connect(&address).map_err(|e| format!("connect: {}", e))?;
+                        let mut n = 0;
+                        for i in 0..40 {
+                            let tok = format!("hd{}c{}i{}", di, c, i);
+                            conn.write_all(&Req::new(Kind::Echo, Flags { more: false, oneway: false }, &tok).to_bytes()).map_err(|e| format!("write: {}", e))?;
+                            match conn.read_frame(Duration::from_secs(20)) {
+                                ReadEv::Frame(f) if String::from_utf8_lossy(&f).contains(&tok) => n += 1,
+                                other => return Err(format!("request {} of client {}: {:?}", i, c, other)),
+                            }
+                            std::thread::sleep(Duration::from_millis(2));
+                        }
+                        Ok(n)
+                    })
+                })
+                .collect();
+            // the hostile peer, in the middle of their traffic
+            std::thread::sleep(Duration::from_millis(20));
+            if let Ok(mut bad) = RawConn::connect(&address) {
+                for open in ["[", "{\"a\":"] {
+                    let msg = format!("{{\"method\":\"org.verif.t.Echo\",\"parameters\":{{\"token\":{}", open.repeat(*depth));
+                    let _ = bad.write_all(msg.as_bytes());
+                    let _ = bad.write_all(&[0]);
+                }
+                bad.shutdown_write();
+                let _ = bad.read_to_eof(Duration::from_secs(20));
+            }
+            hs.into_iter().map(|h| h.join().unwrap_or_else(|_| Err("client thread panicked".into()))).collect()
+        });
+        ctx.case(Some(hash_of(&("hostile-depth", depth))));
+        ctx.count("hostile_depth_rounds", 1);
+        let wit = |m: String| json!({"engine": "c13-hostile-depth", "depth": depth, "message": m});
+        if let Err(e) = server.alive() {
+            ctx.violation("c13:hostile-peer-takes-the-service-down", wit(format!("after a request nested {} deep on another connection: {}; clients: {:?}", depth, e, results)));
+            return;
+        }
+        for r in &results {
+            match r {
+                Ok(n) => ctx.count("reply_frames_observed", *n as u64),
+                Err(e) => {
+                    ctx.violation("c13:well-behaved-client-disturbed-by-hostile-peer", wit(e.clone()));
+                    return;
+                }
+            }
+        }
+    }
+}
+
 pub fn main(ctx: &Ctx) -> i32 {
+    hostile_depth(ctx);
     let gaps: Vec<u64> = ctx.tier.pick(vec![1100, 2600, 5500], vec![1100, 2600, 5500, 10_500, 31_000, 61_000]);
     std::thread::scope(|sc| {
         for (i, g) in gaps.iter().enumerate() {
@@ -307,7 +371,7 @@ pub fn main(ctx: &Ctx) -> i32 {
 }
 
 fn main_rounds(ctx: &Ctx) {
-    ctx.set_rule("2-64 simultaneous clients on unix and TCP against one listen() server (max_worker_threads 200), each pipelining a random token-tagged sequence at a random depth with random segmentation/delays, beside 0-8 misbehaving peers (idle, half a message, close mid-message, garbage, one byte every 2 ms) that stay open until every well-behaved client is done; plus quiet-period histories (burst of 4 simultaneous connections, closed in opening/reverse/rotated order, 1.1/2.6/5.5 s of silence (thorough: up to 61 s), then 4 connections opened one by one and left open, each of which must be answered beside the idle ones); distinct = (client count, transport, misbehaviour mix, observed completion order); non-trivial = >=2 clients overlapped in logical time");
+    ctx.set_rule("2-64 simultaneous clients on unix and TCP against one listen() server (max_worker_threads 200), each pipelining a random token-tagged sequence at a random depth with random segmentation/delays, beside 0-8 misbehaving peers (idle, half a message, close mid-message, garbage, one byte every 2 ms) that stay open until every well-behaved client is done; plus a hostile peer sending requests nested 200..2*10^6 deep beside 4 pipelining clients (server in a child process); plus quiet-period histories (burst of 4 simultaneous connections, closed in opening/reverse/rotated order, 1.1/2.6/5.5 s of silence (thorough: up to 61 s), then 4 connections opened one by one and left open, each of which must be answered beside the idle ones); distinct = (client count, transport, misbehaviour mix, observed completion order); non-trivial = >=2 clients overlapped in logical time");
     ctx.assume("tokens are globally unique (round, client, index), so a foreign byte is recognisable; OS schedules are sampled, not controlled");
     let rounds = ctx.tier.pick(120usize, 6000usize);
     for (ti, &tr) in [Transport::UnixPath, Transport::Tcp].iter().enumerate() {
